@@ -52,10 +52,20 @@ def runtime_cases():
         out.append((mx, [st("transpose", [0], {"axes": p}), st("sum", [1], {"axis": 0})]))
         out.append((mx, [st("add", [0, 0], {}), st("flip", [1], {"axis": 0}), st("flatten", [2], {})]))
         out.append((mx, [st("tile", [0], {"reps": [1, 2][:1] * d}), st("transpose", [1], {"axes": p})]))
+        out.append((mx, [st("repeat", [0], {"repeats": 2, "axis": None})]))
+        out.append((mx, [st("repeat", [0], {"repeats": 2, "axis": d - 1})]))
         if d >= 2:
             out.append((mx, [st("moveaxis", [0], {"source": 0, "destination": -1})]))
             out.append((mx, [st("concatenate", [0, 0], {"axis": 1})]))
+            out.append((mx, [st("diagonal", [0], {"offset": 0, "axis1": 0, "axis2": 1})]))
+            out.append((mx, [st("swapaxes", [0], {"axis1": 0, "axis2": -1})]))
+            out.append((mx, [st("concatenate", [0, 0], {"axis": None})]))
     return out
+
+
+# operations whose result type is resolved per operand kind in several places: always exercised over a clipped-shape and a bounded-dim
+# operand, with run-time and compile-time scalar attributes (the other cases sample kinds)
+FOCUS_OPS = ("repeat", "expand_dims", "diagonal", "concatenate", "swapaxes")   # squeeze: its result dim depends on the run-time shape (and see C09-squeeze-clipped-shape)
 
 
 class C11(e2.ProgenProp):
@@ -158,6 +168,12 @@ class C11(e2.ProgenProp):
             for lk in kinds:
                 aks = [e2._attr_kinds(s, rnd.choice(["ct", "arr", "vec", "sv"]), rnd.choice(["int", "ct"])) for s in stages]
                 rend.append(([lk], aks))
+            if any(s["f"] in FOCUS_OPS for s in stages):
+                for lk in (rnd.choice(["ls_hb", "ls_db"]), rnd.choice(["hs_hb", "hs_db"])):
+                    for sk in ("int", "ct"):
+                        r = ([lk], [e2._attr_kinds(s, "ct" if sk == "ct" else "arr", sk) for s in stages])
+                        if r not in rend:
+                            rend.append(r)
             units.append({"case": case, "max": mx, "renderings": rend})
         jobs = []
         for ui, u in enumerate(units):
